@@ -422,6 +422,73 @@ theorem fg_bridge (f g : List (BitVec 64)) (t : (BitVec 64 × BitVec 64) × (Bit
   simp only [CB.SafeGcd.fg, matOf]
   rw [row_bridge f g t.1.1 t.1.2 hl hne wf wg h00 h01, row_bridge f g t.2.1 t.2.2 hl hne wf wg h10 h11]
 
+/-! ## `SafeGcdInverter::norm` -/
+
+theorem select_eq (a b : List (BitVec 64)) (p : Bool) (h : a.length = b.length) :
+    UnsatInt.select a.length a b (ofBool p) = if p then b else a := by
+  rw [unsat_select_eq_loop, select_loop_bridge a.length a b p rfl h.symm a.length 0 _ (by omega) (by simp)]
+  simp
+
+theorem neg_ok (a : List (BitVec 64)) (wa : WFw a) :
+    nats (UnsatInt.neg a.length a) = uneg (nats a) ∧ WFw (UnsatInt.neg a.length a) ∧
+    (UnsatInt.neg a.length a).length = a.length := by
+  obtain ⟨m1, m2, _⟩ := uneg_spec (nats a) ((WFw_iff a).mp wa)
+  rw [uneg_bridge a wa] at m1 m2
+  rw [nats_length, nats_length] at m1
+  exact ⟨(uneg_bridge a wa).symm, (WFw_iff _).mpr m2, m1⟩
+
+theorem add_ok' (a b : List (BitVec 64)) (h : a.length = b.length) (wa : WFw a) (wb : WFw b) :
+    nats (UnsatInt.add a.length a b) = uadd (nats a) (nats b) ∧ WFw (UnsatInt.add a.length a b) ∧
+    (UnsatInt.add a.length a b).length = a.length := by
+  obtain ⟨m1, m2, _⟩ := uadd_spec (nats a) (nats b) (by rw [nats_length, nats_length, h])
+  rw [uadd_bridge a b h wa wb] at m1 m2
+  rw [nats_length, nats_length] at m1
+  exact ⟨(uadd_bridge a b h wa wb).symm, (WFw_iff _).mpr m2, m1⟩
+
+/-- `select(&v, &v.add(&m), v.is_negative())` -/
+theorem norm_step_add (v m : List (BitVec 64)) (hm : m.length = v.length) (wv : WFw v) (wm : WFw m) :
+    nats (UnsatInt.select v.length v (UnsatInt.add v.length v m) (UnsatInt.is_negative v.length v)) =
+      CB.SafeGcd.uselect (nats v) (uadd (nats v) (nats m)) (uisNeg (nats v)) ∧
+    WFw (UnsatInt.select v.length v (UnsatInt.add v.length v m) (UnsatInt.is_negative v.length v)) ∧
+    (UnsatInt.select v.length v (UnsatInt.add v.length v m) (UnsatInt.is_negative v.length v)).length = v.length := by
+  obtain ⟨a1, a2, a3⟩ := add_ok' v m hm.symm wv wm
+  rw [uisNeg_bridge, select_eq v _ _ a3.symm, CB.SafeGcd.uselect]
+  cases uisNeg (nats v)
+  · exact ⟨rfl, wv, rfl⟩
+  · exact ⟨a1, a2, a3⟩
+
+/-- `select(&v, &v.neg(), negate)` -/
+theorem norm_step_neg (v : List (BitVec 64)) (p : Bool) (wv : WFw v) :
+    nats (UnsatInt.select v.length v (UnsatInt.neg v.length v) (ofBool p)) =
+      CB.SafeGcd.uselect (nats v) (uneg (nats v)) p ∧
+    WFw (UnsatInt.select v.length v (UnsatInt.neg v.length v) (ofBool p)) ∧
+    (UnsatInt.select v.length v (UnsatInt.neg v.length v) (ofBool p)).length = v.length := by
+  obtain ⟨a1, a2, a3⟩ := neg_ok v wv
+  rw [select_eq v _ _ a3.symm, CB.SafeGcd.uselect]
+  cases p
+  · exact ⟨rfl, wv, rfl⟩
+  · exact ⟨a1, a2, a3⟩
+
+/-- **`SafeGcdInverter::norm`**: the model's `norm` IS the translated method, for every limb count, every well-formed
+    `value` and `modulus` of that many limbs and both values of `negate` (the other fields of `self` are not read) -/
+theorem norm_bridge (m adj v : List (BitVec 64)) (inv : BitVec 64) (p : Bool) (hm : m.length = v.length)
+    (wv : WFw v) (wm : WFw m) :
+    norm (nats m) (nats v) p = nats (Inverter.norm v.length (m, adj, inv) v (ofBool p)) ∧
+    WFw (Inverter.norm v.length (m, adj, inv) v (ofBool p)) ∧
+    (Inverter.norm v.length (m, adj, inv) v (ofBool p)).length = v.length := by
+  rw [inverter_norm_eq]
+  simp only
+  obtain ⟨a1, a2, a3⟩ := norm_step_add v m hm wv wm
+  generalize UnsatInt.select v.length v (UnsatInt.add v.length v m) (UnsatInt.is_negative v.length v) = v1 at a1 a2 a3 ⊢
+  rw [← a3] at hm ⊢
+  obtain ⟨b1, b2, b3⟩ := norm_step_neg v1 p a2
+  generalize UnsatInt.select v1.length v1 (UnsatInt.neg v1.length v1) (ofBool p) = v2 at b1 b2 b3 ⊢
+  rw [← b3] at hm ⊢
+  obtain ⟨c1, c2, c3⟩ := norm_step_add v2 m hm b2 wm
+  refine ⟨?_, c2, c3⟩
+  rw [c1, b1, a1]
+  rfl
+
 /-! ## `de` -/
 
 theorem mul_ok (x : List (BitVec 64)) (o : BitVec 64) (wx : WFw x) (ho : -(2 ^ 63) < o.toInt) :
